@@ -103,7 +103,7 @@ func verifC02gbIdx(kl, ku, ldab, i, j int) int {
 
 // VerifC02_Dlangb: norms of the general band matrix.
 func VerifC02_Dlangb() {
-	maxN := verifParam("bnormn", 3)
+	maxN := verifParam("gbn", 3)
 	m := verifChoose("m", 0, maxN)
 	n := verifChoose("n", 0, maxN)
 	kl := verifChoose("kl", 0, verifParam("gbk", 1))
